@@ -437,6 +437,16 @@ func C13(e *Env) {
 			if kind2 == spyfs.FENOENT && (b-1 >= len(log) || (log[b-1].Kind != "stat" && log[b-1].Kind != "fstat") || isKeyPath(log[b-1].Path)) {
 				kind2 = spyfs.FEIO
 			}
+			// "k bytes, then EOF" from a positional read says "the file ends here": for the probes of image kind and
+			// sector size, and for a decrypting view (whose incomplete last sector is stored as it is), that is
+			// information, not a fault — as in the single-fault plans it is injected only under generated images;
+			// the decrypting views get the quiet short read instead, everything else an error
+			if kind2 == spyfs.FShort && b-1 < len(log) && log[b-1].Kind == "readat" && !strings.Contains(sc.Name, "generated-image") {
+				kind2 = spyfs.FEIO
+				if strings.HasPrefix(sc.Name, "encrypted-") || sc.Name == "3k3y-image" {
+					kind2 = spyfs.FShortQuiet
+				}
+			}
 			plans = append(plans, plan{[]spyfs.Fault{{Index: a, Kind: spyfs.FEIO}, {Index: b, Kind: kind2, K: 1 + rng.Intn(3000)}}, fmt.Sprintf("pair: EIO at #%d + %s at #%d", a, kind2, b), "pair", "pair"})
 		}
 		for _, pl := range plans {
